@@ -47,12 +47,15 @@ func directedHistories() map[string]History {
 	g4.Tokens = []int64{20_000_000, 10_000_000, 10_000_000}
 	out["P4-setpower-then-remove"] = History{g4, cat(empty(2, 1), []BlockSpec{blk(tx(sp(adminID, 0, 19*M, false)))}, empty(1, 1), []BlockSpec{blk(tx(rm(adminID, 0)))}, empty(3, 1))}
 	out["P5-remove-after-setpower-maturity"] = History{g3, cat(empty(2, 1), []BlockSpec{blk(tx(sp(adminID, 0, 9*M, false)))}, empty(1, 1), []BlockSpec{blk(tx(rm(adminID, 0)))}, empty(2, 1), empty(3, 20))}
+	// four equal validators: one absentee holds less than a third of the power, so blocks keep being produced
+	gj := defaultGenesis()
+	gj.Tokens = []int64{10_000_000, 10_000_000, 10_000_000, 10_000_000}
 	jail0 := []BlockSpec{{Dt: 1, Absent: []int{0}}, {Dt: 1, Absent: []int{0}}, {Dt: 1, Absent: []int{0}}, {Dt: 1, Absent: []int{0}}, {Dt: 1, Absent: []int{0}}, {Dt: 1, Absent: []int{0}}}
 	unjail0 := BlockSpec{Dt: 10, Txs: []TxSpec{tx(MsgSpec{Kind: "unjail", Sender: 0, Val: 0})}}
-	out["P6-setpower-jail-unjail"] = History{g3, cat(empty(1, 1), []BlockSpec{blk(tx(sp(adminID, 0, 20*M, true)))}, jail0, []BlockSpec{unjail0}, empty(3, 1))}
-	out["P7-setpower-on-jailed"] = History{g3, cat(empty(1, 1), jail0, []BlockSpec{blk(tx(sp(adminID, 0, 12*M, true)))}, empty(2, 1), []BlockSpec{unjail0}, empty(2, 1), empty(3, 20))}
+	out["P6-setpower-jail-unjail"] = History{gj, cat(empty(1, 1), []BlockSpec{blk(tx(sp(adminID, 0, 12*M, true)))}, jail0, []BlockSpec{unjail0}, empty(3, 1))}
+	out["P7-setpower-on-jailed"] = History{gj, cat(empty(1, 1), jail0, []BlockSpec{blk(tx(sp(adminID, 0, 12*M, true)))}, empty(2, 1), []BlockSpec{unjail0}, empty(2, 1), empty(3, 20))}
 	g2 := defaultGenesis()
-	g2.Tokens = []int64{10_000_000, 10_000_000}
+	g2.Tokens = []int64{5_000_000, 20_000_000}
 	out["P8-remove-last-bonded"] = History{g2, cat(empty(1, 1), jail0, []BlockSpec{blk(tx(rm(adminID, 1)))}, empty(2, 1))}
 	out["P12-duplicate-applications"] = History{g3, cat(empty(1, 1), []BlockSpec{blk(tx(createMsg(3, 3))), blk(tx(createMsg(3, 3))), blk(tx(createMsg(4, 3))),
 		blk(tx(sp(adminID, 3, 2*M, true))), blk(tx(sp(adminID, 4, 2*M, true)))}, empty(3, 1))}
@@ -89,6 +92,38 @@ func directedHistories() map[string]History {
 	out["S9-chain-minimum-commission"] = History{g3, cat(empty(2, 1), []BlockSpec{blk(tx(MsgSpec{Kind: "params", Sender: adminID, Params: &minc}))},
 		[]BlockSpec{blk(tx(lowRate)), blk(tx(okRate))}, empty(2, 1))}
 	out["S10-first-block-messages"] = History{g3, cat([]BlockSpec{blk(tx(sp(user1ID, 0, 12*M, true)), tx(MsgSpec{Kind: "params", Sender: 1, Params: &minc}), tx(rm(2, 1)), tx(sp(adminID, 1, 11*M, false)))}, empty(3, 1))}
+	// a slashed, jailed and unjailed validator restored to exactly its pre-slash amount
+	out["S12-restore-after-downtime-slash"] = History{gj, cat(empty(1, 1), jail0, []BlockSpec{unjail0}, empty(1, 1), []BlockSpec{blk(tx(sp(adminID, 0, 10*M, false)))}, empty(3, 1))}
+	// a validator jailed for longer than the unbonding period (Unbonded, still jailed) applies again with a new key
+	reapply := createMsg(0, 5)
+	out["S13-jailed-unbonded-validator-applies-again"] = History{gj, cat(empty(1, 1), jail0, empty(3, 20), []BlockSpec{blk(tx(reapply)), blk(tx(sp(adminID, 0, 9*M, true)))}, empty(3, 1))}
+	// pending applications of two key types; a key reused behind an application of the other type
+	{
+		ks := newKeys()
+		secp, ed := -1, -1
+		for i := 3; i < poolSize; i++ {
+			if ks.Pool[i].ConsPriv.Type() == "secp256k1" && secp < 0 {
+				secp = i
+			}
+			if ks.Pool[i].ConsPriv.Type() == "ed25519" && ed < 0 {
+				ed = i
+			}
+		}
+		if secp >= 0 && ed >= 0 {
+			out["S14-key-reused-behind-other-key-type"] = History{g3, cat(empty(1, 1), []BlockSpec{blk(tx(createMsg(3, secp))), blk(tx(createMsg(4, ed))), blk(tx(createMsg(5, ed))),
+				blk(tx(sp(adminID, 4, 2*M, true))), blk(tx(sp(adminID, 5, 2*M, true)))}, empty(3, 1))}
+			out["S14b-key-reused-behind-other-key-type"] = History{g3, cat(empty(1, 1), []BlockSpec{blk(tx(createMsg(3, ed))), blk(tx(createMsg(4, secp))), blk(tx(createMsg(5, secp))),
+				blk(tx(sp(adminID, 3, 2*M, true))), blk(tx(sp(adminID, 5, 2*M, true))), blk(tx(sp(adminID, 4, 2*M, true)))}, empty(3, 1))}
+		}
+	}
+	// every validator with power removed within one block (the last removal must be refused), by the admin and by themselves
+	out["S16-remove-everybody-in-one-block"] = History{g3, cat(empty(2, 1), []BlockSpec{blk(tx(rm(adminID, 0)), tx(rm(adminID, 1)), tx(rm(adminID, 2)))}, empty(3, 1))}
+	out["S16b-everybody-leaves-in-one-block"] = History{g3, cat(empty(2, 1), []BlockSpec{blk(tx(rm(2, 2)), tx(rm(0, 0)), tx(rm(1, 1)))}, empty(3, 1))}
+	upCreate := createMsg(3, 4)
+	upCreate.Upper = true
+	upSp := sp(adminID, 3, 2*M, true)
+	upSp.Upper = true
+	out["S15-same-operator-upper-case-spelling"] = History{g3, cat(empty(1, 1), []BlockSpec{blk(tx(createMsg(3, 3))), blk(tx(upCreate)), blk(tx(upSp)), blk(tx(sp(adminID, 3, 3*M, true)))}, empty(3, 1))}
 	out["S11-setpower-params-setpower-one-block"] = History{g3, cat(empty(2, 1), []BlockSpec{blk(tx(sp(adminID, 0, 14*M, false)), tx(MsgSpec{Kind: "params", Sender: adminID, Params: &minc}), tx(sp(adminID, 1, 15*M, false)))}, empty(2, 1))}
 	out["S3-non-admin"] = History{g3, cat(empty(1, 1), []BlockSpec{blk(tx(sp(user1ID, 0, 12*M, false)), tx(rm(2, 1)), tx(MsgSpec{Kind: "removepending", Sender: 1, Val: 3}))}, empty(2, 1))}
 	return out
@@ -222,8 +257,17 @@ func cmdL1(args []string) error {
 		}
 		// report the effective history (absentees CometBFT's liveness rule allows, normalised messages)
 		eff := History{Genesis: it.h.Genesis}
+		wantAbs, gotAbs := 0, 0
+		for _, b := range it.h.Blocks {
+			wantAbs += len(b.Absent)
+		}
 		for _, bt := range tr.Blocks {
 			eff.Blocks = append(eff.Blocks, bt.Spec)
+			gotAbs += len(bt.Spec.Absent)
+		}
+		if gotAbs < wantAbs && !strings.Contains(it.name, "-") == false && (strings.HasPrefix(it.name, "P") || strings.HasPrefix(it.name, "S")) && len(tr.Blocks) == len(it.h.Blocks) {
+			// a directed scenario that loses its downtime to the liveness rule does not exercise what it was written for
+			fmt.Fprintf(os.Stderr, "WARNING directed history %s: %d of %d absences dropped by the liveness rule\n", it.name, wantAbs-gotAbs, wantAbs)
 		}
 		it.h = eff
 		fs := Monitors(it.h, tr)
